@@ -14,14 +14,14 @@ LEVEL = 'exploration'
 TECHNIQUE = ('bounded-exhaustive enumeration (model checking of the implementation), differential: all argument sequences up to length 3/4 over 9 '
              'argument classes x 6 modes on the real trash-put; per-argument snapshot classification vs the same argument run alone')
 LEVEL_TEXT = ('every sequence of argument classes (trashable file/dir/symlink, nonexistent, ".", "..", non-UTF-8 name, un-trashable by layout, duplicate of the '
-              'previous, the empty string, a name starting with @) is executed; exit status must be 0 iff every argument was trashed or legitimately skipped, every failed argument must be named on '
+              'previous, the empty string, a name starting with @, a mount point) is executed; exit status must be 0 iff every argument was trashed or legitimately skipped, every failed argument must be named on '
               'stderr, and each argument must end exactly as when it is run alone on the same initial world')
 LEVEL_NOTE = 'trusted: snapshot classifier; end-of-input at an -i prompt is excluded (covered by C01); permission failures are not modelled (root)'
 RULE = ('sequences of length 1..3 (thorough 1..4) over {file, dir, link, dangling link, missing, dot, dotdot, nonutf8, untrashable, dup, empty string, @name (the last two only in sequences of length <= 2 in the quick tier)} (dup not first) x mode {-, -f, -i all y, '
-        '-i all n, -i alternating y/n, -i alternating y/empty/blank, -v, HOME with regex metacharacters}; non-trivial = at least two arguments with different outcomes; distinct = (mode, multiset of classes, exit, outcome vector)')
-CLASSES = ['file', 'dir', 'link', 'dangling', 'missing', 'dot', 'dotdot', 'nonutf8', 'untrashable', 'dup', 'emptystr', 'atname']
-NEWER = ('emptystr', 'atname')          # quick: only in sequences of length <= 2
-MODES = ['-', '-f', '-iy', '-in', '-ialt', '-iblank', '-v', 'odd-home']
+        '-i all n, -i alternating y/n, -i alternating y/empty/blank, -v, HOME with regex metacharacters, --trash-dir on the home volume (one candidate shared by arguments of several volumes)}; non-trivial = at least two arguments with different outcomes; distinct = (mode, multiset of classes, exit, outcome vector)')
+CLASSES = ['file', 'dir', 'link', 'dangling', 'missing', 'dot', 'dotdot', 'nonutf8', 'untrashable', 'dup', 'emptystr', 'atname', 'mountpoint']
+NEWER = ('emptystr', 'atname', 'mountpoint')          # quick: only in sequences of length <= 2
+MODES = ['-', '-f', '-iy', '-in', '-ialt', '-iblank', '-v', 'odd-home', 'td-home']
 B = '/home/u/w'
 PROMPT = re.compile(r"trash-put: trash .*? '(.*?)'\? ", re.S)
 
@@ -44,7 +44,8 @@ def cases(tier):
 
 
 def make_world(seq):
-    W = scen.base_world(mounts=['/', '/mnt/vb'], cwd=B)
+    W = scen.base_world(mounts=['/', '/mnt/vb', '/mnt/vc'], cwd=B)
+    W.file('/mnt/vc/inside', 'content of the mounted volume\n')
     W.file('/mnt/vb/.Trash', 'blocked').file('/mnt/vb/.Trash-0', 'blocked')
     args = []
     for i, cl in enumerate(seq):
@@ -73,6 +74,8 @@ def make_world(seq):
         elif cl == 'untrashable':
             W.file('/mnt/vb/u%d' % i, 'stuck\n')
             args.append(('/mnt/vb/u%d' % i, '/mnt/vb/u%d' % i))
+        elif cl == 'mountpoint':
+            args.append(('/mnt/vc', '/mnt/vc'))          # a mount point: its move is refused by itself (EBUSY), after the .trashinfo was written
         elif cl == 'emptystr':
             args.append(('', None))                       # e.g. an unset shell variable: names nothing, must count as a failure
         elif cl == 'atname':
@@ -85,7 +88,7 @@ def make_world(seq):
 
 
 def run_list(W, argv_args, mode, replies):
-    argv = ['trash-put'] + {'-': [], '-f': ['-f'], '-v': ['-v'], 'odd-home': []}.get(mode, ['-i']) + [a for a, _ in argv_args]
+    argv = ['trash-put'] + {'-': [], '-f': ['-f'], '-v': ['-v'], 'odd-home': [], 'td-home': ['--trash-dir', '/home/u/T']}.get(mode, ['-i']) + [a for a, _ in argv_args]
     stdin = ''.join(r + '\n' for r in replies) if mode.startswith('-i') else None
     env = None
     if mode == 'odd-home':
